@@ -131,6 +131,7 @@ static int owner_key(int fd, char* name) {
     if (hfd == fd) { sprintf(name, "h%d", i); return 1 + i; }
   }
   if (fd == loop.signal_pipefd[0]) { strcpy(name, "signal"); return 100000; }
+  if (fd == loop.inotify_fd) { strcpy(name, "inotify"); return 99999; }
   sprintf(name, "other"); return 100001;
 }
 
